@@ -517,6 +517,19 @@ func ruleALBump(c *Ctx) {
 	}
 	ret := rs[0]
 	ptr := resolvedResults(ret)[0]
+	// Alloc may hand the slot computation and the growth to helper methods of the arena entry: the slot rules
+	// are then decided in the helper whose single result Alloc returns, the growth rule where the new array is
+	// allocated (with the "arena is full" fact taken at that helper's call site)
+	alloc0 := al
+	var growCallSite *ssa.Call
+	if call, ok := ptr.(*ssa.Call); ok {
+		if h := call.Call.StaticCallee(); h != nil && P.isModuleFunc(h) && h.Blocks != nil && h.Signature.Recv() != nil {
+			if hr := returnsOf(h); len(hr) == 1 {
+				al, ret, ptr = h, hr[0], resolvedResults(hr[0])[0]
+			}
+		}
+	}
+	_ = alloc0
 	// ptr = unsafe.Pointer(uintptr(array) + uintptr(i*size))
 	var idx ssa.Value
 	okPtr := false
@@ -564,21 +577,44 @@ func ruleALBump(c *Ctx) {
 	c.Check(okIdx, key+"/pre-increment-index", P.pos(ret.Pos()), "index = len read before len = len+1, and the increment happens on every path to the return", "the slot index is not the length before an increment that happens on every path: two allocations could share a slot")
 	// growth: on the len==cap edge, array = unsafe_NewArray(ptyp, n) and cap = n
 	var grow *ssa.Call
-	for _, cs := range callsIn(al) {
+	growFn := alloc0
+	for _, cs := range callsIn(alloc0) {
 		if cs.Static != nil && cs.Static.Name() == "unsafe_NewArray" {
 			grow = cs.Value()
+		}
+	}
+	if grow == nil {
+		for _, cs := range callsIn(alloc0) {
+			h := cs.Static
+			if h == nil || !P.isModuleFunc(h) || h.Blocks == nil || h.Signature.Recv() == nil {
+				continue
+			}
+			for _, hc := range callsIn(h) {
+				if hc.Static != nil && hc.Static.Name() == "unsafe_NewArray" {
+					grow, growFn, growCallSite = hc.Value(), h, cs.Value()
+					if growCallSite == nil {
+						if ci, ok := cs.Instr.(*ssa.Call); ok {
+							growCallSite = ci
+						}
+					}
+				}
+			}
 		}
 	}
 	okGrow := false
 	if grow != nil {
 		full := false
-		for _, cmp := range cmpFactsAt(grow.Block()) {
+		factBlock := grow.Block()
+		if growFn != alloc0 && growCallSite != nil {
+			factBlock = growCallSite.Block()
+		}
+		for _, cmp := range cmpFactsAt(factBlock) {
 			if cmp.Op == token.EQL && (fieldLoad(cmp.X, R.len) && fieldLoad(cmp.Y, R.cap) || fieldLoad(cmp.X, R.cap) && fieldLoad(cmp.Y, R.len)) {
 				full = true
 			}
 		}
 		arrStored, capStored := false, false
-		for _, b := range al.Blocks {
+		for _, b := range growFn.Blocks {
 			for _, in := range b.Instrs {
 				if st, ok := in.(*ssa.Store); ok {
 					if fa, ok := st.Addr.(*ssa.FieldAddr); ok {
